@@ -390,8 +390,8 @@ def evaluate(prop, drv, cases, variants=None):
         pending = still
     # a disagreement is re-confirmed once, serially, before it counts: under machine load a case can
     # time out or be cut short in a pool worker; the number of such retractions is reported
-    still = list(pending[20:])      # (many disagreements are not load; re-confirm only the first ones)
-    for i in pending[:20]:
+    still = list(pending[6:])       # (many disagreements are not load; re-confirm only the first ones)
+    for i in pending[:6]:
         again = run_impl_safe(prop, cases[i], prop.case_timeout_s * 2)
         if again != res[i]["impl"]:
             ok = False
